@@ -93,6 +93,11 @@ CLAIMED = {
         text="Each configuration field read back through get_configuration()/get_backend() must be exactly the scalar it was constructed from, for every configurable layer (both construction routes) and for "
              "make_parameter_pack_for at depth 1..10 where all nine layers share one configuration type so a positional swap cannot be masked by types. Accessor/trait types are compile witnesses in C13.",
         note="array backend's configuration handled with ownership (C12); rebuild-equality follows from lookups being functions of (configuration, storage)"),
+    "C19": dict(
+        level="other", design="5/C19", technique="shape rule over clang's type-checked syntax tree of every nd_map instantiation (canonical counted loop + exactly-one-call body, recursive or loop-nest formulation) + exact IR facts for tail/cat; induction on N",
+        text="Exactly-once coverage is derived by induction from per-instantiation facts: one canonical loop over extent component 0 (from 0, strict bound, +1, nothing modified) whose body makes exactly one forwarding call, and exact tail/cat. "
+             "std::function type erasure defeats IR-level analysis, so the decision is on the AST. Formulations outside the two recognised grammars are reported as analysis-broken (exit 2), not passed.",
+        note="N=1..5, scalars size_t (+int, unsigned in thorough); std::function contract trusted; rewrites into other algorithms need re-confirmation"),
     "C20": dict(
         level="exploration", design="5/C20", technique="compile-time witness enumeration (static_assert units decided by the type checker)",
         text="Exhaustive enumeration, within the stated bounds, of index sequences; each case is a static_assert whose truth the C++ type checker "
